@@ -123,6 +123,7 @@ func init() {
 			{Func: "H_C04_function", Covers: []string{"bad", "good"}},
 			{Func: "H_C04_union_default", Covers: []string{"two", "one"}},
 			{Func: "H_C04_typedef_cycle", Quick: rng(0, 1), Covers: []string{"cycle", "acyclic"}, StepLimitIsViolation: true, MaxSteps: 3000000},
+			{Func: "H_C04_ambiguous", Quick: rng(0, 1), Covers: []string{"ambiguous", "one", "none"}},
 			{Func: "H_C04_include_cycle", Quick: rng(1, 3), Covers: []string{"cycle", "dag"}, StepLimitIsViolation: true, MaxSteps: 3000000},
 		},
 	}
@@ -194,6 +195,7 @@ func init() {
 		Assumptions: []string{"all dimensions are finite choice spaces enumerated through the solver (regexp2/regexp operands must be concrete)", "the yaml configuration lookup of TrimAST is bypassed (doTrimAST is the entry)", "'generates compiling code with the same wire behaviour' is outside this check"},
 		Harnesses: []Harness{
 			{Func: "H_C16_trim", Quick: tuples3(seq(0, 5), []int64{0, 3, 9}, []int64{0, 2, 4, 8}), Thorough: tuples3(seq(0, 5), seq(0, 9), seq(0, 9)), Covers: []string{"end"}},
+			{Func: "H_C16_prefix", Quick: rng(0, 6), Covers: []string{"end"}},
 		},
 	})
 	register(&Prop{
